@@ -443,6 +443,12 @@ def digest_auth(realm, get_ha1, key, debug=False, accept_charset='utf-8'):
     if ha1 is None:
         respond_401()
 
+    if auth.qop == qop_auth_int:
+        # The challenge only ever offers qop="auth" (see _respond_401), and
+        # H(entity-body) cannot be computed from the RequestBody object.
+        raise cherrypy.HTTPError(
+            400, auth.errmsg('qop="auth-int" is not supported'))
+
     # note that for request.body to be available we need to
     # hook in at before_handler, not on_start_resource like
     # 3.1.x digest_auth does.
